@@ -12,6 +12,8 @@ SCHED = {'C01', 'C06', 'C08', 'C09', 'C10', 'C11', 'C12', 'C14', 'C15', 'C17', '
 for i in ids:
     p = props[i]
     text = "%s: %s\n\nSTATEMENT: %s\n\nQUANTIFIER: %s\n\nFILES INVOLVED: %s\n" % (i, p['title'], p['statement'], p['quantifier']['text'], ', '.join(p['anchors']['files']))
+    if os.environ.get('SEED_WITH_MECHANISMS'):
+        text += "\nMECHANISMS the property rests on (from the property record):\n" + "\n".join("  - %s (%s)" % (m['name'], m['where']) for m in p['anchors']['mechanism']) + "\n"
     earlier = []
     for f in sorted(glob.glob(os.path.join(root, 'seeded', i + '*', 'meta.json'))):
         m = json.load(open(f))
